@@ -313,7 +313,11 @@ def replay(item, tier, seed):
         hist = tuple(ast.literal_eval(x) for x in h[1])
         d = sp.fresh(hist).doc
         labels = [x[0] for x in derive(d)]
-        sp.one(hist, labels.index(h[2]), h[3], h[4], h[5], out)
+        if h[2] in labels:
+            sp.one(hist, labels.index(h[2]), h[3], h[4], h[5], out)
+        else:
+            # (on this tree the operation derives nothing from this state - it raises: nothing to compare)
+            out.filters["derivation-not-available-on-this-tree"] += 1
     vs, _ = runner.violations_json(sp, out)
     return {"property": "C12", "coverage": {"states": 1, "transitions": 1, "traces_validated_against_impl": 1,
             "samples": [{"replayed": h}]}, "violations": vs, "wall_s": 0}
